@@ -248,7 +248,17 @@ class ArgSet:
                 env.raw[a.name] = raws
                 env.a[a.name] = exacts
                 args.append(symex.Ptr(oid, IV(64, c=0)))
+        if k.wide_ret():
+            oid = exr.new_obj(st, 16, "ret_out")
+            self.objs["ret_out"] = oid
+            args.append(symex.Ptr(oid, IV(64, c=0)))
         return args
+
+    def fix_wide_ret(self, exr, path):
+        if path.kind == "RET" and self.kernel.wide_ret():
+            st = symex.State()
+            st.mem = path.mem
+            path.payload = exr.load_conc(st, self.objs["ret_out"], 0, irparse.IntTy(128))
 
     def mkvar(self, d, name, ctype):
         cpp_t, nb, sg, kind = core.CT[ctype]
@@ -684,6 +694,7 @@ def check_kernel_mode(sb, kernel, view, key, mod, consts, mode, opts, res, known
     paths = [p for p in paths if p.kind != "INFEASIBLE"]
     for p in paths:
         if p.kind == "RET":
+            argset.fix_wide_ret(exr, p)
             argset.read_outs(exr, p)
     res["paths"] = len(paths)
     res["path_kinds"] = {}
@@ -721,8 +732,19 @@ def check_kernel_mode(sb, kernel, view, key, mod, consts, mode, opts, res, known
                     args.append(symex.Ptr(oid, IV(64, c=0)))
                 else:
                     raise IRUnsupported("buffer args in equivalence kernels")
+            if kernel.wide_ret():
+                oid = e2.new_obj(st, 16, "ret_out")
+                ref_ret[0] = oid
+                args.append(symex.Ptr(oid, IV(64, c=0)))
             return args
+        ref_ret = [None]
         ref_paths = [p for p in exr2.run(kernel.name + "_ref", None, setup=setup2) if p.kind != "INFEASIBLE"]
+        if kernel.wide_ret():
+            for p in ref_paths:
+                if p.kind == "RET":
+                    st_ = symex.State()
+                    st_.mem = p.mem
+                    p.payload = exr2.load_conc(st_, ref_ret[0], 0, irparse.IntTy(128))
         res["ref_paths"] = len(ref_paths)
         res["functions_encoded"] = sorted(set(res["functions_encoded"]) | exr2.funcs_reached | {kernel.name + "_ref"})
 
